@@ -166,3 +166,101 @@ Proof.
   - right. apply (H j Hj Hm).
   - left. unfold w. apply masked_weight_zero; [lia|lia|exact Hm].
 Qed.
+
+(* ---- a causal (or padding) mask row is the same as not having the later keys at all ---- *)
+Lemma expo_app l1 : forall m1 l2 m2, length l1 = length m1 -> expo (l1 ++ l2) (m1 ++ m2) = expo l1 m1 ++ expo l2 m2.
+Proof.
+  unfold expo. induction l1 as [|a l1 IH]; intros [|b m1] l2 m2 H; cbn [length] in H; try discriminate; [reflexivity|].
+  cbn [app combine map]. f_equal. apply IH. lia.
+Qed.
+
+Lemma expo_all_false l : expo l (repeat false (length l)) = repeat 0 (length l).
+Proof. unfold expo. induction l as [|a l IH]; cbn [length repeat combine map]; [reflexivity|]. now rewrite IH. Qed.
+
+Lemma qsum_app a b : qsum (a ++ b) == qsum a + qsum b.
+Proof.
+  induction a as [|x a IH].
+  - change (qsum ([] ++ b)) with (qsum b). change (qsum []) with 0. ring.
+  - change (qsum ((x :: a) ++ b)) with (x + qsum (a ++ b)). change (qsum (x :: a)) with (x + qsum a). rewrite IH. ring.
+Qed.
+
+Lemma qsum_zeros n : qsum (repeat 0 n) == 0.
+Proof. induction n as [|n IH]; cbn [repeat qsum fold_right]; [reflexivity|]. change (fold_right Qplus 0 (repeat 0 n)) with (qsum (repeat 0 n)). rewrite IH. ring. Qed.
+
+Definition wterm (f : nat) (wv : Q * list Z) : Q := fst wv * inject_Z (nth f (snd wv) 0%Z).
+Lemma wsum_cons f x w v vs : wsum (x :: w) (v :: vs) f == x * inject_Z (nth f v 0%Z) + wsum w vs f.
+Proof. unfold wsum. cbn [combine map fst snd]. change (qsum (?a :: ?l)) with (a + qsum l). reflexivity. Qed.
+Lemma wsum_nil_l f vs : wsum [] vs f == 0.
+Proof. reflexivity. Qed.
+Lemma wsum_nil_r f w : wsum w [] f == 0.
+Proof. unfold wsum. destruct w; reflexivity. Qed.
+
+Lemma wsum_app f w1 : forall vs1 w2 vs2, length w1 = length vs1 -> wsum (w1 ++ w2) (vs1 ++ vs2) f == wsum w1 vs1 f + wsum w2 vs2 f.
+Proof.
+  induction w1 as [|x w1 IH]; intros [|v vs1] w2 vs2 H; cbn [length] in H; try discriminate.
+  - cbn [app]. rewrite wsum_nil_l. ring.
+  - cbn [app]. rewrite !wsum_cons, IH by lia. ring.
+Qed.
+
+Lemma wsum_zero_weights f n s : forall vs, wsum (map (fun x => x / s) (repeat 0 n)) vs f == 0.
+Proof.
+  induction n as [|n IH]; intros vs; cbn [repeat map]; [apply wsum_nil_l|].
+  destruct vs as [|v vs]; [apply wsum_nil_r|]. rewrite wsum_cons, IH. unfold Qdiv. ring.
+Qed.
+
+Lemma wsum_weights_ext f : forall e vs s s', s == s' -> wsum (map (fun x => x / s) e) vs f == wsum (map (fun x => x / s') e) vs f.
+Proof.
+  induction e as [|x e IH]; intros vs s s' Hs; [reflexivity|]. destruct vs as [|v vs]; [cbn [map]; now rewrite !wsum_nil_r|].
+  cbn [map]. rewrite !wsum_cons, (IH vs s s' Hs). now rewrite Hs.
+Qed.
+
+Lemma logits_of_app q ks1 : forall b1 ks2 b2, length ks1 = length b1 ->
+  logits_of q (ks1 ++ ks2) (b1 ++ b2) = logits_of q ks1 b1 ++ logits_of q ks2 b2.
+Proof.
+  unfold logits_of. induction ks1 as [|k ks1 IH]; intros [|b b1] ks2 b2 H; cbn [length] in H; try discriminate; [reflexivity|].
+  cbn [app combine map]. f_equal. apply IH. lia.
+Qed.
+
+(* attention over the whole sequence, with the keys after position n masked out (row n-1 of the causal mask, or a padding
+   mask), is attention over the first n keys alone: what the decode cache holds at that step *)
+Theorem masked_suffix_is_absent dv q ks1 ks2 b1 b2 vs1 vs2 :
+  length b1 = length ks1 -> length vs1 = length ks1 -> length b2 = length ks2 -> length vs2 = length ks2 ->
+  Forall2 Qeq (attend dv q (ks1 ++ ks2) (b1 ++ b2) (repeat true (length ks1) ++ repeat false (length ks2)) (vs1 ++ vs2))
+              (attend dv q ks1 b1 (repeat true (length ks1)) vs1).
+Proof.
+  intros L1 L2 L3 L4. unfold attend. cbv zeta. rewrite logits_of_app by lia.
+  set (l1 := logits_of q ks1 b1). set (l2 := logits_of q ks2 b2).
+  assert (Ll1 : length l1 = length ks1) by (unfold l1, logits_of; rewrite map_length, combine_length; lia).
+  assert (Ll2 : length l2 = length ks2) by (unfold l2, logits_of; rewrite map_length, combine_length; lia).
+  unfold weights. cbv zeta. rewrite expo_app by (rewrite repeat_length; lia).
+  replace (repeat false (length ks2)) with (repeat false (length l2)) by now rewrite Ll2.
+  rewrite expo_all_false. set (e1 := expo l1 (repeat true (length ks1))).
+  assert (S : qsum (e1 ++ repeat 0 (length l2)) == qsum e1) by (rewrite qsum_app, qsum_zeros; ring).
+  rewrite map_app.
+  assert (Le1 : length e1 = length ks1) by (unfold e1; rewrite expo_length; rewrite ?repeat_length; lia).
+  induction (seq 0 dv) as [|f fs IH]; cbn [map]; constructor; [|exact IH].
+  rewrite wsum_app by (rewrite map_length; lia). rewrite wsum_zero_weights.
+  rewrite (wsum_weights_ext f e1 vs1 _ _ S). ring.
+Qed.
+
+(* row t of whole-sequence attention under the causal mask is attention over the first t+1 keys and values, which is what
+   the decode cache holds at step t (Model/Seq.v decode, theorem decode_equals_causal, is parametric in the attention function) *)
+Lemma prefix_attention dv q (k1 k2 : list (list Z * list Z)) :
+  Forall2 Qeq (attend dv q (map fst (k1 ++ k2)) (repeat 0%Z (length (k1 ++ k2))) (repeat true (length k1) ++ repeat false (length k2)) (map snd (k1 ++ k2)))
+              (att_kv dv q k1).
+Proof.
+  unfold att_kv. rewrite !map_app, app_length, repeat_app.
+  pose proof (masked_suffix_is_absent dv q (map fst k1) (map fst k2) (repeat 0%Z (length k1)) (repeat 0%Z (length k2)) (map snd k1) (map snd k2)) as H.
+  rewrite !map_length in H. apply H; rewrite ?repeat_length, ?map_length; reflexivity.
+Qed.
+
+Theorem causal_row_is_prefix_attention dv q kvs t : (t < length kvs)%nat ->
+  Forall2 Qeq (attend dv q (map fst kvs) (repeat 0%Z (length kvs)) (causal_row t (length kvs)) (map snd kvs))
+              (att_kv dv q (firstn (S t) kvs)).
+Proof.
+  intros Ht. unfold causal_row.
+  assert (L1 : length (firstn (S t) kvs) = S t) by (rewrite firstn_length; lia).
+  assert (L2 : length (skipn (S t) kvs) = (length kvs - S t)%nat) by (rewrite skipn_length; lia).
+  pose proof (prefix_attention dv q (firstn (S t) kvs) (skipn (S t) kvs)) as H.
+  rewrite firstn_skipn, L1, L2 in H. exact H.
+Qed.
